@@ -565,6 +565,46 @@ func runC04(c *ctx) {
 	for i := 0; i < c.scale(2500, 60000) && !c.tooMany(); i++ {
 		check(genTree(r, 2+r.intn(3)), "random")
 	}
+	// whitespace between tokens is optional: token sequences (operands incl. the wildcard and descendant operands)
+	// glued together wherever two tokens cannot fuse must parse like the spaced text
+	operands := []string{"a", "$x", "1", "\"s\"", "*", "**", "$f(1)", "(a)", "`q`", "%", "true"}
+	binops := append([]string{}, c04Binary...)
+	fuses := func(x, y string) bool {
+		l, f := x[len(x)-1], y[0]
+		wordy := func(b byte) bool {
+			return b == '_' || b == '$' || b == '`' || (b >= '0' && b <= '9') || (b >= 'a' && b <= 'z') || (b >= 'A' && b <= 'Z') || b >= 0x80
+		}
+		if wordy(l) && (wordy(f) || f == '"' || f == '\'') {
+			// a name runs up to the next whitespace or operator character: it swallows a following quote
+			return true
+		}
+		two := string([]byte{l, f})
+		switch two {
+		case "!=", "<=", ">=", ":=", "..", "**", "~>", "*.", ".*":
+			return two != "*." && two != ".*"
+		}
+		return (l == '.' && f >= '0' && f <= '9') || (l >= '0' && l <= '9' && f == '.') || (l == '"' || f == '"') && false
+	}
+	for i := 0; i < c.scale(3000, 60000) && !c.tooMany(); i++ {
+		n := 1 + r.intn(3)
+		toks := []string{operands[r.intn(len(operands))]}
+		for k := 0; k < n; k++ {
+			toks = append(toks, binops[r.intn(len(binops))], operands[r.intn(len(operands))])
+		}
+		spaced := strings.Join(toks, " ")
+		var glued strings.Builder
+		for k, t := range toks {
+			if k > 0 && fuses(toks[k-1], t) {
+				glued.WriteString(" ")
+			}
+			glued.WriteString(t)
+		}
+		g1, _ := c.parseCompare(spaced, "whitespace/spaced")
+		g2, _ := c.parseCompare(glued.String(), "whitespace/glued")
+		if g1.outcome != g2.outcome && !(strings.HasPrefix(g1.outcome, "err") && strings.HasPrefix(g2.outcome, "err")) {
+			c.disagree(Disagreement{Kind: "whitespace-dependent-parse", Prog: glued.String() + "   vs   " + spaced, Go: g2.outcome, Model: g1.outcome + " (the spaced text)"})
+		}
+	}
 	// the lexical clauses: quotes, regex vs division, keywords as names
 	for _, p := range [][2]string{{`"a b"`, `'a b'`}, {`"q\"q"`, `'q"q'`}, {`"\u00e9"`, `'é'`}} {
 		g1, g2 := goParse(p[0]), goParse(p[1])
@@ -700,6 +740,13 @@ func runC11(c *ctx) {
 		exp := "ok " + valueSexp(want)
 		if got != exp {
 			c.disagree(Disagreement{Kind: "json-denotation", Prog: text, Go: trunc(got, 300), Model: trunc(exp, 300)})
+			return
+		}
+		// the text denotes its value on every evaluation, whatever the caller did with earlier results
+		scribble(res.value)
+		res2 := safely(evalLimit, func() (interface{}, error) { return e.Eval(nil) })
+		if res2.outcome != exp {
+			c.disagree(Disagreement{Kind: "json-denotation-after-caller-wrote-into-result", Prog: text, Go: trunc(res2.outcome, 300), Model: trunc(exp, 300)})
 		}
 	}
 	// exhaustive strings of units
